@@ -54,3 +54,5 @@ func (a *verifMemApp) Close() error               { a.closed = true; return nil 
 func (a *verifMemApp) Copy(dstPath string) error  { return nil }
 func (a *verifMemApp) CompressionFormat() int     { return 0 }
 func (a *verifMemApp) CompressionLevel() int      { return 0 }
+
+func verifEOF() error { return io.EOF }
